@@ -103,17 +103,17 @@ Admissible(d, d2, E2, I2, orph) ==
     /\ AdmOneCase(d2, I2)
     /\ AdmUntouched(d, d2, E2)
 
-\* constructive form used for model checking / generation: the leaves the property leaves open
+\* constructive form used for model checking / generation.  Orphan-deleted leaves stay on the device
+\* (what the orphan flag is for); the leaves the property leaves open are chosen by `keep`.
+KeptOrphans(d, E2, I2, orph) == {l \in DOMAIN d : l \in E2 /\ l \in orph /\ l \notin LeavesOf(I2) /\ ~Losing(I2, l)}
 Flexible(d, E2, I2, orph) ==
-    {l \in DOMAIN d : ~Losing(I2, l) /\ l \notin EffLeaves(I2) /\
-        \/ (l \in E2 /\ l \in orph)
-        \/ (l \notin E2 /\ EntryOf(l) \in TouchedEntries(E2))}
+    {l \in DOMAIN d : ~Losing(I2, l) /\ l \notin EffLeaves(I2) /\ l \notin E2 /\ EntryOf(l) \in TouchedEntries(E2)}
 Constructed(d, E2, I2, orph, keep) ==
     LET ef == Eff(I2)
         base == [l \in DOMAIN d |-> d[l]]
         gone == {l \in DOMAIN d : l \notin DOMAIN ef /\
                     \/ Losing(I2, l)
-                    \/ (l \in E2 /\ l \notin keep)
+                    \/ (l \in E2 /\ l \notin KeptOrphans(d, E2, I2, orph))
                     \/ (l \in Flexible(d, E2, I2, orph) /\ l \notin keep)}
     IN Overlay(Without(base, gone), ef)
 \* the minimal change that reaches a constructed device state
@@ -124,6 +124,23 @@ MinimalChange(d, d2) == [upd |-> {<<l, d2[l]>> : l \in {m \in DOMAIN d2 : Get(d,
 \* defined, except leaves whose last definer was orphan-deleted and that stayed on the device
 \* (they are unmanaged device content from then on)
 EverAfter(E, I, R, I2, d2) == (E \cup LeavesOf(I2)) \ {l \in Orphaned(I, R) : l \notin LeavesOf(I2) /\ l \in DOMAIN d2}
+
+\* ---- C04: validity of a configuration (partial function leaf -> datum) for the verification schema.
+\* dis: the disabled validator classes.  Only constraint instances whose YANG meaning is not in dispute:
+\* leaf-local range / length / pattern / max-elements (table UBad), mandatory child of a presence
+\* container, leafref with require-instance to a list key, a must that needs a sibling.
+LeafLocalOK(cfg, dis) == \A l \in DOMAIN cfg : \A b \in UBad : (b[1] = l /\ b[2] = cfg[l]) => b[3] \in dis
+MandatoryOK(cfg) == (("s.svc" \in DOMAIN cfg) \/ ("s.svc.note" \in DOMAIN cfg)) => ("s.svc.id" \in DOMAIN cfg)
+LeafrefOK(cfg) == ("s.primary" \in DOMAIN cfg) =>
+                     \/ (cfg["s.primary"] = "s:$k1" /\ "i1.name" \in DOMAIN cfg)
+                     \/ (cfg["s.primary"] = "s:$k2" /\ "i2.name" \in DOMAIN cfg)
+MustOK(cfg) == ("s.guard" \in DOMAIN cfg) => ("s.host" \in DOMAIN cfg)
+ValidCfg(cfg, dis) == /\ LeafLocalOK(cfg, dis)
+                      /\ ("mandatory" \in dis \/ MandatoryOK(cfg))
+                      /\ ("leafref" \in dis \/ LeafrefOK(cfg))
+                      /\ ("must" \in dis \/ MustOK(cfg))
+\* the configuration that results from a transaction: the merged intents over the untouched device content
+ResultOf(I2, d, E) == Overlay(Without(d, LeavesOf(I2) \cup E), Eff(I2))
 
 \* ---- cache Modify model (sdcio/cache as used): intended entries are keyed by (owner, priority, path)
 \* m = [o, p, del : set of leaves, upd : set of <<l, v>>]; deletes first, then writes
